@@ -230,7 +230,8 @@ def deduplicate(rows, pk):
         return list(rows)
     seen, out = [], []
     for r in rows:
-        key = tuple(r[k] for k in pk)
+        # (a boolean is not the number it compares equal to in Python: true / 1 are different values)
+        key = tuple((isinstance(r[k], bool), r[k]) for k in pk)
         if key in seen:     # list membership: no hashing assumptions
             continue
         seen.append(key)
